@@ -88,3 +88,8 @@ def witness(rng, case, idx):
             P.transfer(p[1, 1:2], p[1, 2:3], '10 uL')
         except Exception:
             pass
+        # N -> 1 with the collecting well inside the source region (the mirror image: the collected material is destroyed)
+        try:
+            P.transfer(p['A'], p['A:2'], '10 uL')
+        except Exception:
+            pass
